@@ -45,13 +45,13 @@ BUGS = {'sep2': {'PeerGotExactly', 'LogSendExact', 'LogAllInterleaved', 'ReturnV
 OWNER = {'C08': ('C08:',), 'C11': ('C11:',)}
 
 
-def consts(transport, history, maxops, small, bug='none'):
+def consts(transport, history, maxops, small, bug='none', logcfgs='LogCfgsAll'):
     if small:
         c = [('Payloads', '<- SmallPayloads'), ('ReadPayloads', '<- SmallRead'), ('KeyPayloads', '<- SmallKeys'),
              ('Lists', '<- SmallLists'), ('Controls', '<- SmallControls'), ('LogCfgs', '<- LogCfgsSmall')]
     else:
         c = [('Payloads', '<- AllPayloads'), ('ReadPayloads', '<- ReadAll'), ('KeyPayloads', '<- KeysAll'),
-             ('Lists', '<- ListsAll'), ('Controls', '<- ControlsAll'), ('LogCfgs', '<- LogCfgsAll')]
+             ('Lists', '<- ListsAll'), ('Controls', '<- ControlsAll'), ('LogCfgs', '<- %s' % logcfgs)]
     return c + [('Modes', '<- ModesAll'), ('Transport', '= "%s"' % transport), ('MaxOps', '= %d' % maxops),
                 ('History', '= %s' % ('TRUE' if history else 'FALSE')), ('Bug', '= "%s"' % bug)]
 
@@ -244,7 +244,7 @@ def check_logs(rig, inst, succ, phase, add, with_end=True, snapshot=None):
             add('C11:interact' if phase == 'interact' else clause, {'log': name, 'got': short(got), 'want': short(want)})
         if flushes != len(writes) or maxun > 1:
             add('C11:flush', {'log': name, 'writes': len(writes), 'flushes': flushes, 'max_unflushed_writes': maxun})
-        if len(writes) != succ['writes'][name] and got == want and name != 'read' and not succ['logRead']:
+        if len(writes) != succ['writes'][name] and got == want and not succ['delivered'] and not succ['userGot']:
             add('drift:write-granularity', {'log': name, 'writes': len(writes), 'model': succ['writes'][name]})
 
 
@@ -343,6 +343,7 @@ def exec_interact(rig, steps, tag0, tamper=None):
     mode = rig.mode
     obs = []
     pre = {}
+    kpre = {}
 
     def mk(i, label, succ):
         name, args = stategraph.parse_action(label)
@@ -353,7 +354,10 @@ def exec_interact(rig, steps, tag0, tamper=None):
             if stage == 'inject':
                 rig.reset_logs()
                 if name == 'InteractCopyIn':
-                    os.write(arg, inst.keys(succ['peerGot'][0]))
+                    # utf-16: the user's keystrokes are a UTF-16 stream of their own, which starts with a
+                    # byte-order mark once per interact() session (copied to the child like any keystroke)
+                    kpre[i] = codecs.BOM_UTF16 if (mode == 'utf16' and not kpre) else b''
+                    os.write(arg, kpre[i] + inst.keys(succ['peerGot'][0]))
                 elif name == 'InteractCopyOut':
                     pre[i] = rig.out_prefix()
                     os.write(rig.out_fd, pre[i] + inst.out_bytes(succ['userGot'][0], with_end=False))
@@ -377,10 +381,10 @@ def exec_interact(rig, steps, tag0, tamper=None):
     if exc is not None:
         found.append(('C11:interact', {'what': 'interact() raised', 'exc': _exc(exc), 'op': 'interact'}))
         return found
-    for (lab, succ), (fn, name, inst), o in zip(steps, made, obs):
+    for idx, ((lab, succ), (fn, name, inst), o) in enumerate(zip(steps, made, obs)):
         def add(clause, detail, lab=lab):
             found.append((clause, dict(detail, op=lab, phase='interact')))
-        want_peer = inst.peer(succ['peerGot'])
+        want_peer = kpre.get(idx, b'') + inst.peer(succ['peerGot'])
         if o['seg'] != want_peer:
             add('C08:peer-bytes', {'got': short(o['seg']), 'want': short(want_peer), 'what': 'bytes the child received during interact()'})
         if name == 'InteractCopyOut':
@@ -454,7 +458,8 @@ def run_walk(job):
 
 # ---------------------------------------------------------------- the check
 def window_graph(ctx, transport):
-    cfg = tlc.write_cfg(os.path.join(ctx.work, 'w_%s.cfg' % transport), constants=consts(transport, False, 1, False), invariants=INVS)
+    cfg = tlc.write_cfg(os.path.join(ctx.work, 'w_%s.cfg' % transport), invariants=INVS,
+                        constants=consts(transport, False, 1, False, logcfgs='LogCfgsQuick' if getattr(ctx, 'tier', 'quick') == 'quick' else 'LogCfgsAll'))
     dot = os.path.join(ctx.work, 'w_%s.dot' % transport)
     res = tlc.run('MCSendLog', cfg, ctx.work, workers=1, timeout=900, extra=['-dump', 'dot,actionlabels', dot],
                   outname='w_%s.out' % transport)
@@ -511,7 +516,7 @@ def run(ctx):
     ctx.note('TLC SendLog, whole histories (<= %d operations, 3 payload classes, 4 log configurations, bytes/utf-8/utf-16): %s '
              'distinct states; %d invariants hold' % (maxops, ' + '.join('%s %d' % (tr, r['distinct']) for tr, r in zip(TRANSPORTS, hist)), len(INVS)))
     ctx.note('model sensitivity: ' + ', '.join('%s -> %s' % (b, v) for b, v in zip(sorted(BUGS), caught)))
-    ctx.note('TLC SendLog, last-operation configuration (6 payload classes, 8 log configurations, 3 modes): ' + ', '.join(
+    ctx.note('TLC SendLog, last-operation configuration (6 payload classes, %d log configurations, 3 modes)' % (5 if quick else 8) + ': ' + ', '.join(
         '%s %d states / %d transitions' % (tr, len(g.nodes), g.n_edges()) for tr, (r, g) in zip(TRANSPORTS, graphs)) +
         ' (%.0fs of TLC so far)' % (time.time() - t0))
     # (2) walks covering every transition
@@ -535,6 +540,7 @@ def run(ctx):
         raise tlc.TLCError('%d walks could not be carried out, e.g. %s on %s' % (len(mach), mach[0][1]['machinery'], mach[0][0]['transport']))
     ctl_used = set()
     others = []
+    drifts = []
     for j, o in zip(jobs, outs):
         j['kind'] = o['kind']
         stats['steps'] += o['steps']
@@ -542,6 +548,7 @@ def run(ctx):
         stats['per'][j['transport']] = stats['per'].get(j['transport'], 0) + o['steps']
         ctl_used |= set(x.lower() for x in o['ctl'])
         others += o['other']
+        drifts += o.get('driftlist', [])[:1]
         for f in o['fails']:
             ctx.fail(f['clause'], {'transport': j['transport'], 'init': j['init'], 'widx': j['widx'], 'steps': j['steps'][:f['at'] + 1] if not
                                    j['steps'][f['at']][0].startswith('EnterInteract') else j['steps'][:_interact_end(j['steps'], f['at']) + 1]},
@@ -557,6 +564,8 @@ def run(ctx):
              '%d control names sent (%s); %d walks not carried out; SPEC-DRIFT/flaky %d' % (
                  len(jobs), stats['steps'], stats['planned'], time.time() - t1, ', '.join('%s %d' % kv for kv in sorted(stats['per'].items())),
                  len(ctl_used), 'all of the table' if not missing else 'missing %s' % sorted(missing), len(mach), stats['drift']))
+    if drifts:
+        ctx.note('SPEC-DRIFT (not a verdict), e.g. %s' % json.dumps(drifts[0])[:300])
     if others:
         ctx.note('not judged here (other properties): %d step(s), e.g. %s' % (len(others), json.dumps(others[0][1])[:300]))
     by = {}
